@@ -1,9 +1,9 @@
 From Coq Require Import Extraction ExtrOcamlBasic NArith ZArith.
-From V Require Import lib.Words model.Concat model.ConcatRun spec.ConcatSpec.
+From V Require Import lib.Words model.Concat model.ConcatRun spec.ConcatSpec spec.ConcatMarker.
 Extraction Language OCaml.
 Extraction "../build/ocaml/concat/model.ml"
   bc_new new_with_window_size broccoli_create broccoli_create_with_window_size
   run_native run_ffi stream finish new_brotli_file serialize_to_buffer deserialize_from_buffer
   parse_window_size detect_varlen_offset
-  c16_call_ok c16_state_ok c16_run_ok c12_agree rfc_wbits invb startedb concat_spec
+  c16_call_ok c16_state_ok c16_run_ok c12_agree rfc_wbits invb startedb concat_spec markers_ok
   Z.of_N.  (* Z.of_N only so that the type z exists for ocaml/conv.ml *)
